@@ -35,6 +35,7 @@ GLUE = [
 ]
 
 PROP = {
+    "max_jobs": 8,  # parallel CBMC jobs (memory profile of these harnesses)
     "claim": "for every rejected input of each layer constructor the error names an admissible layer for the layer "
              "the reference decoder found faulty, its true offset, len == bytes really available (or the value of the "
              "under-claiming length field), required_len is a size that layer legitimately demands with the right "
